@@ -6,6 +6,7 @@ import (
 	"os"
 	"os/exec"
 	"path/filepath"
+	"strings"
 	"time"
 
 	"verif/corpus"
@@ -38,6 +39,8 @@ func C13(c *Ctx) int {
 	}
 	hs = append(hs, Harness{Name: "lr1.ConstructOrder", Pkg: "internal/parsergen/lr1", Func: "H_ConstructOrder", Reach: []string{"built"}, MaxPaths: 20000,
 		Bounds: "expression grammar; every range over a built-in map inside ConstructLALR iterates in every order (all n! for n<=4, rotations/reversals above)"})
+	hs = append(hs, Harness{Name: "codegen.EmitLexerOrder", Pkg: "internal/codegen", Func: "H_EmitLexerOrder", Reach: []string{"emitted"}, MaxPaths: 20000,
+		Bounds: "a specification with four modes through the real ParseLox, then EmitLexer twice: every range over a built-in map inside EmitLexer and the closures it hands to the template engine (modes, mode_table) iterates in every order (all n! for n<=4); the template engine itself is stubbed"})
 	for _, h := range hs {
 		h.MapOrder = true
 		r, err := c.RunHarness(prog, h)
@@ -123,8 +126,70 @@ func (c *Ctx) historyByProduct(o *Outcome) {
 					"errors": fmt.Sprint(err1, err2), "small": small.Lox(), "big": big.Lox()})))
 		}
 	}
+	// repeated runs in fresh processes (Go randomises map iteration per
+	// process): a lexer with seven modes and a parser with several rules, twelve
+	// generations each; files and --report text must be identical every time
+	specs := []*corpus.LexSpec{
+		corpus.MustLexSpec("H-modes7", "A = 'a' @push_mode(M1)\nB = 'b' @push_mode(M4)\n@mode M1 {\nC = 'c' @push_mode(M2)\nC1 = 'x' @pop_mode\n}\n@mode M2 {\nD = 'd' @push_mode(M3)\nD1 = 'x' @pop_mode\n}\n@mode M3 {\nE = 'e' @pop_mode\n}\n@mode M4 {\nF = 'f' @push_mode(M5)\nF1 = 'x' @pop_mode\n}\n@mode M5 {\nG = 'g' @push_mode(M6)\nG1 = 'x' @pop_mode\n}\n@mode M6 {\nH = 'h' @pop_mode\n}"),
+	}
+	for _, l := range corpus.LexModes() {
+		if l.Name == "L-mode3" || l.Name == "L-mode-empty" {
+			specs = append(specs, l)
+		}
+	}
+	repeat := map[string]any{}
+	mod, err := c.GenModule(true) // a module that requires loxlex (the lexer items' parser.go uses simplelexer.Token)
+	if err != nil {
+		o.Broken = append(o.Broken, "repeat by-product: "+err.Error())
+		return
+	}
+	for _, l := range specs {
+		dir := filepath.Join(mod, "rep_"+pkgName(l.Name))
+		os.MkdirAll(dir, 0755)
+		defer os.RemoveAll(dir)
+		for i, text := range l.LoxFiles() {
+			os.WriteFile(filepath.Join(dir, fmt.Sprintf("item%d.lox", i)), []byte(text), 0644)
+		}
+		os.WriteFile(filepath.Join(dir, "parser.go"), []byte(l.ParserGo("hist")), 0644)
+		var first map[string][]byte
+		differs := ""
+		for run := 0; run < 12 && differs == ""; run++ {
+			cmd := exec.Command(lox, "--report", dir)
+			cmd.Dir = c.Scratch
+			cmd.Env = goEnv()
+			out, err := runTimeout(cmd, 2*time.Minute)
+			if err != nil {
+				tail := string(out)
+				if len(tail) > 400 {
+					tail = tail[len(tail)-400:]
+				}
+				o.Broken = append(o.Broken, fmt.Sprintf("repeat by-product: lox failed on %s: %v: %s", l.Name, err, tail))
+				break
+			}
+			files := map[string][]byte{"--report": out}
+			for _, f := range []string{"base.gen.go", "lexer.gen.go", "parser.gen.go"} {
+				files[f], _ = os.ReadFile(filepath.Join(dir, f))
+			}
+			if first == nil {
+				first = files
+				continue
+			}
+			for f, data := range first {
+				if !bytes.Equal(data, files[f]) {
+					differs = fmt.Sprintf("%s differs in run %d", f, run+1)
+				}
+			}
+		}
+		repeat[l.Name] = differs == ""
+		if differs != "" {
+			o.Violations = append(o.Violations, fmt.Sprintf("VIOLATION property=C13 replay=%s", c.SaveReplay("repeated-runs-"+l.Name,
+				map[string]any{"what": "repeated generations of one specification give different output (" + differs + "); concrete by-product, not solver-decided",
+					"item": l.Name, "spec": strings.Join(l.LoxFiles(), "\n---\n")})))
+		}
+	}
 	if o.Extra == nil {
 		o.Extra = map[string]any{}
 	}
 	o.Extra["history_by_product_not_solver_decided"] = res
+	o.Extra["repeated_runs_by_product_not_solver_decided"] = repeat
 }
